@@ -7,7 +7,7 @@
    clauses of Spec/Shape.v. *)
 From Coq Require Import List Arith NArith Bool Lia Strings.String FinFun.
 From Coq Require Strings.Byte.
-From V Require Import Base.Bytes Base.Res Model.Ast Model.Tagfilter0 Model.Html Spec.HtmlSpec Spec.Shape.
+From V Require Import Base.Bytes Base.Res Model.Ast Model.Tagfilter0 Model.Html Spec.HtmlSpec Spec.Shape Spec.NestSpec.
 Import ListNotations.
 Local Open Scope string_scope.
 Local Open Scope list_scope.
@@ -620,6 +620,327 @@ Section T.
     intros H2 H3. unfold html. destruct (total t H2 H3) as [e ->]. cbn [bind]. eexists; reflexivity.
   Qed.
 End T.
+
+(* ------------------------------------------------------------------ the footnote section opens once *)
+Lemma count_open_app t a b : count_open t (a ++ b) = count_open t a + count_open t b.
+Proof. induction a as [|e a IH]; [reflexivity|]. destruct e; cbn [app count_open]; rewrite IH; lia. Qed.
+Lemma count_close_app t a b : count_close t (a ++ b) = count_close t a + count_close t b.
+Proof. induction a as [|e a IH]; [reflexivity|]. destruct e; cbn [app count_close]; rewrite IH; lia. Qed.
+
+Ltac closed_tags :=
+  repeat match goal with
+  | |- context [bytes_eqb (B ?a) (B ?b)] =>
+    let v := eval vm_compute in (bytes_eqb (B a) (B b)) in change (bytes_eqb (B a) (B b)) with v
+  end.
+
+Lemma backref_count t name fnix total :
+  bytes_eqb t (B "a") = false -> bytes_eqb t (B "sup") = false -> forall k,
+  count_open t (backref_loop name fnix total k) = 0 /\
+  count_close t (backref_loop name fnix total k) = 0.
+Proof.
+  intros Ha Hs. induction total as [|n IH]; intro k; [split; reflexivity|].
+  cbn [backref_loop]. destruct (IH (S k)) as [A C].
+  destruct (1 <? N.of_nat k)%N; cbn [app count_open count_close]; rewrite ?Ha, ?Hs; cbn [Nat.add]; auto.
+Qed.
+
+Lemma pfb_count t name total st evs st' w :
+  bytes_eqb t (B "a") = false -> bytes_eqb t (B "sup") = false ->
+  put_footnote_backref name total st = (evs, st', w) ->
+  count_open t evs = 0 /\ count_close t evs = 0.
+Proof.
+  intros Ha Hs. unfold put_footnote_backref. destruct (fn_ix st <=? wfn_ix st)%N; intro H; inv H.
+  - split; reflexivity.
+  - apply backref_count; assumption.
+Qed.
+
+Ltac cnt :=
+  repeat first
+   [ progress cbn [count_open count_close app Nat.add]
+   | rewrite count_open_app
+   | rewrite count_close_app
+   | progress closed_tags
+   | match goal with
+     | H : put_footnote_backref _ _ _ = (?e, _, _) |- context [count_open ?t ?e] =>
+       rewrite (proj1 (pfb_count t _ _ _ _ _ _ eq_refl eq_refl H))
+     | H : put_footnote_backref _ _ _ = (?e, _, _) |- context [count_close ?t ?e] =>
+       rewrite (proj2 (pfb_count t _ _ _ _ _ _ eq_refl eq_refl H))
+     | H : count_open ?t ?e = _ |- context [count_open ?t ?e] => rewrite H
+     | H : count_close ?t ?e = _ |- context [count_close ?t ?e] => rewrite H
+     | |- context [bytes_eqb _ (if ?b then _ else _)] => destruct b
+     | |- context [count_open _ (if ?b then _ else _)] => destruct b
+     | |- context [count_close _ (if ?b then _ else _)] => destruct b
+     | |- context [count_open _ (match ?b with _ => _ end)] => destruct b
+     | |- context [count_close _ (match ?b with _ => _ end)] => destruct b
+     | |- context [match (match ?b with _ => _ end) with _ => _ end] => destruct b
+     end ];
+  try reflexivity.
+
+Section S.
+  Variable slug : bytes -> bytes.
+  Variable o : opts.
+
+  Lemma enter_count c v sp ch st e1 st1 m :
+    enter slug o c (Node v sp ch) st = Ok (e1, st1, m) ->
+    count_open (B "section") e1 = (if is_fndef v && (fn_ix st =? 0)%N then 1 else 0) /\
+    count_close (B "section") e1 = 0.
+  Proof.
+    destruct v; unfold enter; cbv beta iota zeta; hd; try discriminate; intro He; inv He;
+      cbn [is_fndef andb]; split; cnt.
+  Qed.
+
+  Lemma exit_count c v sp ch st2 e3 st3 :
+    exit_ o c (Node v sp ch) st2 = Ok (e3, st3) ->
+    count_open (B "section") e3 = 0 /\ count_close (B "section") e3 = 0.
+  Proof.
+    destruct v; unfold exit_; cbv beta iota zeta; hd; try discriminate; intro He; inv He; split; cnt.
+  Qed.
+
+  (* 1 when the section is opened between the two states *)
+  Definition opened (a b : hst) : nat :=
+    if (fn_ix a =? 0)%N && negb (fn_ix b =? 0)%N then 1 else 0.
+
+  Lemma opened_trans a b c :
+    (fn_ix a <= fn_ix b)%N -> (fn_ix b <= fn_ix c)%N -> opened a b + opened b c = opened a c.
+  Proof.
+    unfold opened. intros H1 H2.
+    destruct (N.eqb_spec (fn_ix a) 0), (N.eqb_spec (fn_ix b) 0), (N.eqb_spec (fn_ix c) 0);
+      cbn [andb negb Nat.add]; try reflexivity; lia.
+  Qed.
+
+  Lemma opened_same a b : fn_ix b = fn_ix a -> opened a b = 0.
+  Proof. unfold opened. intros ->. destruct (fn_ix a =? 0)%N; reflexivity. Qed.
+
+  Definition CI (n : node) : Prop := forall c st evs st',
+    render slug o c n st = Ok (evs, st') ->
+    count_open (B "section") evs = opened st st' /\ count_close (B "section") evs = 0 /\
+    (fn_ix st <= fn_ix st')%N.
+
+  Lemma list_count v pv : forall l, Forall CI l -> forall i prev st evs st',
+    render_list slug o v pv l i prev st = Ok (evs, st') ->
+    count_open (B "section") evs = opened st st' /\ count_close (B "section") evs = 0 /\
+    (fn_ix st <= fn_ix st')%N.
+  Proof.
+    induction 1 as [|x r Hx Hr IH]; intros i prev st evs st' Hl.
+    - cbn [render_list] in Hl. inv Hl. rewrite opened_same by reflexivity. repeat split. lia.
+    - cbn [render_list] in Hl.
+      match type of Hl with bind ?X _ = _ => destruct X as [[ex sx]| |] eqn:Hrx end; cbn [bind] in Hl; try discriminate.
+      match type of Hl with bind ?X _ = _ => destruct X as [[er sr]| |] eqn:Hrr end; cbn [bind] in Hl; try discriminate.
+      inv Hl. destruct (Hx _ _ _ _ Hrx) as [A1 [C1 M1]]. destruct (IH _ _ _ _ _ Hrr) as [A2 [C2 M2]].
+      rewrite count_open_app, count_close_app, A1, A2, C1, C2, opened_trans by assumption.
+      repeat split. lia.
+  Qed.
+
+  Lemma render_CI : forall n, CI n.
+  Proof.
+    apply node_ind2. intros v sp ch IH c st evs st' Hr.
+    rewrite render_unfold in Hr.
+    destruct (enter slug o c (Node v sp ch) st) as [[[e1 st1] m]| |] eqn:He; cbn [bind] in Hr; try discriminate.
+    pose proof (enter_fn_ix _ _ _ _ _ _ _ _ _ _ He) as F1.
+    destruct (enter_count _ _ _ _ _ _ _ _ He) as [A1 C1].
+    assert (M1 : (fn_ix st <= fn_ix st1)%N) by (rewrite F1; destruct (is_fndef v); lia).
+    assert (A1' : count_open (B "section") e1 = opened st st1).
+    { rewrite A1. unfold opened. rewrite F1. destruct (is_fndef v); cbn [andb].
+      - destruct (N.eqb_spec (fn_ix st) 0) as [E|E]; [|reflexivity]. rewrite E. reflexivity.
+      - destruct (fn_ix st =? 0)%N; reflexivity. }
+    assert (Hch : exists e2 st2 e3,
+               count_open (B "section") e2 = opened st1 st2 /\ count_close (B "section") e2 = 0 /\
+               (fn_ix st1 <= fn_ix st2)%N /\
+               exit_ o c (Node v sp ch) st2 = Ok (e3, st') /\ evs = e1 ++ e2 ++ e3).
+    { destruct m.
+      - destruct (render_list slug o v (c_parent c) ch 0 None st1) as [[e2 st2]| |] eqn:Hl; cbn [bind] in Hr; try discriminate.
+        destruct (exit_ o c (Node v sp ch) st2) as [[e3 st3]| |] eqn:Hx; cbn [bind] in Hr; try discriminate.
+        inv Hr. exists e2, st2, e3. destruct (list_count _ _ _ IH _ _ _ _ _ Hl) as [A [C M]].
+        repeat split; assumption.
+      - cbn [bind] in Hr.
+        destruct (exit_ o c (Node v sp ch) st1) as [[e3 st3]| |] eqn:Hx; cbn [bind] in Hr; try discriminate.
+        inv Hr. exists [], st1, e3. rewrite opened_same by reflexivity. repeat split; try assumption. lia. }
+    destruct Hch as [e2 [st2 [e3 [A2 [C2 [M2 [Hx ->]]]]]]].
+    pose proof (exit_fn_ix _ _ _ _ _ _ _ _ Hx) as F3.
+    destruct (exit_count _ _ _ _ _ _ _ Hx) as [A3 C3].
+    rewrite !count_open_app, !count_close_app, A1', A2, A3, C1, C2, C3, Nat.add_0_r.
+    rewrite opened_trans by assumption.
+    split; [|split; [reflexivity|lia]].
+    unfold opened. rewrite F3. reflexivity.
+  Qed.
+
+  Theorem section_once t evs :
+    events slug o t = Ok evs ->
+    count_open (B "section") evs = count_close (B "section") evs /\
+    count_open (B "section") evs <= 1.
+  Proof.
+    unfold events.
+    destruct (render slug o root_ctx t (mkHst 0 0 [])) as [[e st]| |] eqn:Hr; cbn [bind]; try discriminate.
+    intro H. inv H. destruct (render_CI t _ _ _ _ Hr) as [A [C M]].
+    rewrite count_open_app, count_close_app, A, C.
+    unfold opened, finish. cbn [fn_ix N.eqb andb].
+    destruct (N.eqb_spec (fn_ix st) 0) as [E|E].
+    - rewrite E. cbn. split; [reflexivity|lia].
+    - replace (0 <? fn_ix st)%N with true by (symmetry; apply N.ltb_lt; lia).
+      cbn [negb count_open count_close Nat.add]. closed_tags. cbn [Nat.add]. split; [reflexivity|lia].
+  Qed.
+End S.
+
+(* ------------------------------------------------------------------ table sections *)
+Definition tsum (e : list ev) : nat :=
+  count_open (B "thead") e + count_close (B "thead") e +
+  count_open (B "tbody") e + count_close (B "tbody") e +
+  count_open (B "table") e + count_close (B "table") e.
+
+Lemma tsum_app a b : tsum (a ++ b) = tsum a + tsum b.
+Proof. unfold tsum. rewrite !count_open_app, !count_close_app. lia. Qed.
+
+Definition b2n (b : bool) : nat := if b then 1 else 0.
+Definition is_hdr (prev : option node_value) : bool :=
+  match prev with Some (TableRow true) => true | _ => false end.
+Definition is_nil {A} (l : list A) : bool := match l with [] => true | _ => false end.
+
+Section TS.
+  Variable slug : bytes -> bytes.
+  Variable o : opts.
+
+  Lemma enter_tsum c v sp ch st e1 st1 m :
+    is_table_v v = false -> is_row_v v = false ->
+    enter slug o c (Node v sp ch) st = Ok (e1, st1, m) -> tsum e1 = 0.
+  Proof.
+    intros T R. destruct v; try discriminate T; try discriminate R; clear T R;
+      unfold enter; cbv beta iota zeta; hd; try discriminate; intro He; inv He; unfold tsum; cnt.
+  Qed.
+
+  Lemma exit_tsum c v sp ch st2 e3 st3 :
+    is_table_v v = false -> is_row_v v = false ->
+    exit_ o c (Node v sp ch) st2 = Ok (e3, st3) -> tsum e3 = 0.
+  Proof.
+    intros T R. destruct v; try discriminate T; try discriminate R; clear T R;
+      unfold exit_; cbv beta iota zeta; hd; try discriminate; intro He; inv He; unfold tsum; cnt.
+  Qed.
+
+  Definition Z (n : node) : Prop := forall c st evs st',
+    s3_go (c_parent c) (c_gparent c) n = true -> no_table n = true -> is_row_v (nval n) = false ->
+    render slug o c n st = Ok (evs, st') -> tsum evs = 0.
+
+  Lemma list_Z v pv : is_table_v v = false -> forall l, Forall Z l -> forall i prev st evs st',
+    forallb (s3_go (Some v) pv) l = true -> forallb no_table l = true ->
+    render_list slug o v pv l i prev st = Ok (evs, st') -> tsum evs = 0.
+  Proof.
+    intros Hv. induction 1 as [|x r Hx Hr IH]; intros i prev st evs st' H3 Hn Hl.
+    - cbn [render_list] in Hl. inv Hl. reflexivity.
+    - cbn [render_list] in Hl. cbn [forallb] in H3, Hn.
+      apply andb_true_iff in H3. destruct H3 as [H3x H3r]. apply andb_true_iff in Hn. destruct Hn as [Hnx Hnr].
+      match type of Hl with bind ?X _ = _ => destruct X as [[ex sx]| |] eqn:Hrx end; cbn [bind] in Hl; try discriminate.
+      match type of Hl with bind ?X _ = _ => destruct X as [[er sr]| |] eqn:Hrr end; cbn [bind] in Hl; try discriminate.
+      inv Hl. rewrite tsum_app.
+      assert (R : is_row_v (nval x) = false).
+      { destruct (is_row_v (nval x)) eqn:R; [|reflexivity].
+        rewrite (s3_child_row _ _ _ H3x R) in Hv. discriminate. }
+      match type of Hrx with render _ _ ?c _ _ = _ => rewrite (Hx c _ _ _ H3x Hnx R Hrx) end.
+      rewrite (IH _ _ _ _ _ H3r Hnr Hrr). reflexivity.
+  Qed.
+
+  Lemma render_Z : forall n, Z n.
+  Proof.
+    apply node_ind2. intros v sp ch IH c st evs st' H3 Hn R Hr. cbn [nval] in R.
+    cbn [no_table] in Hn. apply andb_true_iff in Hn. destruct Hn as [T Hn]. apply negb_true_iff in T.
+    assert (H3c : forallb (s3_go (Some v) (c_parent c)) ch = true).
+    { cbn [s3_go] in H3. apply andb_true_iff in H3. apply H3. }
+    rewrite render_unfold in Hr.
+    destruct (enter slug o c (Node v sp ch) st) as [[[e1 st1] m]| |] eqn:He; cbn [bind] in Hr; try discriminate.
+    pose proof (enter_tsum _ _ _ _ _ _ _ _ T R He) as Z1.
+    destruct m.
+    - destruct (render_list slug o v (c_parent c) ch 0 None st1) as [[e2 st2]| |] eqn:Hl; cbn [bind] in Hr; try discriminate.
+      destruct (exit_ o c (Node v sp ch) st2) as [[e3 st3]| |] eqn:Hx; cbn [bind] in Hr; try discriminate.
+      inv Hr. rewrite !tsum_app, Z1, (list_Z _ _ T _ IH _ _ _ _ _ H3c Hn Hl), (exit_tsum _ _ _ _ _ _ _ T R Hx). reflexivity.
+    - cbn [bind] in Hr.
+      destruct (exit_ o c (Node v sp ch) st1) as [[e3 st3]| |] eqn:Hx; cbn [bind] in Hr; try discriminate.
+      inv Hr. rewrite !tsum_app, Z1, (exit_tsum _ _ _ _ _ _ _ T R Hx). reflexivity.
+  Qed.
+
+  Definition counts6 (e : list ev) (a b c d f g : nat) : Prop :=
+    count_open (B "thead") e = a /\ count_close (B "thead") e = b /\
+    count_open (B "tbody") e = c /\ count_close (B "tbody") e = d /\
+    count_open (B "table") e = f /\ count_close (B "table") e = g.
+
+  Lemma tsum0 e : tsum e = 0 -> counts6 e 0 0 0 0 0 0.
+  Proof. unfold tsum, counts6. lia. Qed.
+
+  Lemma counts6_app e1 e2 a b c d f g a' b' c' d' f' g' :
+    counts6 e1 a b c d f g -> counts6 e2 a' b' c' d' f' g' ->
+    counts6 (e1 ++ e2) (a + a') (b + b') (c + c') (d + d') (f + f') (g + g').
+  Proof.
+    unfold counts6. intros [A [B0 [C [D [F G]]]]] [A' [B' [C' [D' [F' G']]]]].
+    rewrite !count_open_app, !count_close_app. lia.
+  Qed.
+
+  Lemma row_counts t pv h spx chx c st ex sx :
+    c_parent c = Some (Table t) -> c_gparent c = pv ->
+    s3_go (Some (Table t)) pv (Node (TableRow h) spx chx) = true -> forallb no_table chx = true ->
+    render slug o c (Node (TableRow h) spx chx) st = Ok (ex, sx) ->
+    counts6 ex (b2n h) (b2n h) (b2n (negb h && is_hdr (c_prev c))) 0 0 0.
+  Proof.
+    intros Ep Eg H3 Hn Hr. rewrite render_unfold in Hr. rewrite Ep in Hr.
+    unfold enter in Hr. cbv beta iota zeta in Hr. cbn [bind] in Hr.
+    destruct (render_list slug o (TableRow h) (Some (Table t)) chx 0 None st) as [[e2 st2]| |] eqn:Hl; cbn [bind] in Hr; try discriminate.
+    unfold exit_ in Hr. cbv beta iota zeta in Hr. cbn [bind] in Hr. inv Hr.
+    assert (H3c : forallb (s3_go (Some (TableRow h)) (Some (Table t))) chx = true).
+    { cbn [s3_go] in H3. apply andb_true_iff in H3. apply H3. }
+    assert (IH : Forall Z chx) by (apply Forall_forall; intros; apply render_Z).
+    pose proof (tsum0 _ (list_Z (TableRow h) _ eq_refl _ IH _ _ _ _ _ H3c Hn Hl)) as [A [B0 [C [D [F G]]]]].
+    unfold counts6.
+    destruct h; cbn [negb andb b2n]; [repeat split; cnt|].
+    destruct (c_prev c) as [pvv|]; [destruct pvv; try (repeat split; cnt; fail)|repeat split; cnt].
+  Qed.
+
+  Lemma rows_counts t pv : forall l i prev st evs st',
+    forallb (s3_go (Some (Table t)) pv) l = true -> forallb (is_row_of false) l = true ->
+    forallb no_table l = true ->
+    render_list slug o (Table t) pv l i prev st = Ok (evs, st') ->
+    counts6 evs 0 0 (b2n (is_hdr prev && negb (is_nil l))) 0 0 0.
+  Proof.
+    induction l as [|x r IH]; intros i prev st evs st' H3 Hf Hn Hl.
+    - cbn [render_list] in Hl. inv Hl. rewrite andb_false_r. repeat split.
+    - cbn [render_list] in Hl. cbn [forallb] in H3, Hf, Hn.
+      apply andb_true_iff in H3. destruct H3 as [H3x H3r]. apply andb_true_iff in Hn. destruct Hn as [Hnx Hnr].
+      apply andb_true_iff in Hf. destruct Hf as [Hfx Hfr].
+      match type of Hl with bind ?X _ = _ => destruct X as [[ex sx]| |] eqn:Hrx end; cbn [bind] in Hl; try discriminate.
+      match type of Hl with bind ?X _ = _ => destruct X as [[er sr]| |] eqn:Hrr end; cbn [bind] in Hl; try discriminate.
+      inv Hl. destruct x as [vx spx chx]. unfold is_row_of in Hfx. cbn [nval] in Hfx, Hrr.
+      destruct vx; try discriminate Hfx. destruct header; [discriminate Hfx|].
+      cbn [no_table is_table_v negb andb] in Hnx.
+      match type of Hrx with render _ _ ?cc _ _ = _ => pose proof (row_counts _ _ _ _ _ cc _ _ _ eq_refl eq_refl H3x Hnx Hrx) as C1 end. cbn [c_prev negb andb b2n] in C1.
+      pose proof (IH _ _ _ _ _ H3r Hfr Hnr Hrr) as C2. cbn [is_hdr andb b2n] in C2.
+      pose proof (counts6_app _ _ _ _ _ _ _ _ _ _ _ _ _ _ C1 C2) as C.
+      cbn [is_nil negb]. rewrite andb_true_r. rewrite !Nat.add_0_r in C. exact C.
+  Qed.
+
+  (* a table that satisfies S3 and has no table nested in its cells: one table element, one head
+     section, and one body section exactly when there is a second row *)
+  Theorem table_sections c t sp ch st evs st' :
+    s3_go (c_parent c) (c_gparent c) (Node (Table t) sp ch) = true ->
+    forallb no_table ch = true ->
+    render slug o c (Node (Table t) sp ch) st = Ok (evs, st') ->
+    let body := if (2 <=? List.length ch)%nat then 1 else 0 in
+    counts6 evs 1 1 body body 1 1.
+  Proof.
+    intros H3 Hn Hr. cbn [s3_go] in H3. apply andb_true_iff in H3. destruct H3 as [Hk H3c].
+    destruct ch as [|x rs]; [discriminate Hk|]. cbn [table_children_ok] in Hk.
+    apply andb_true_iff in Hk. destruct Hk as [Hx0 Hrs].
+    rewrite render_unfold in Hr. unfold enter in Hr. cbv beta iota zeta in Hr. cbn [bind] in Hr.
+    destruct (render_list slug o (Table t) (c_parent c) (x :: rs) 0 None st) as [[e2 st2]| |] eqn:Hl; cbn [bind] in Hr; try discriminate.
+    cbn [render_list] in Hl.
+    match type of Hl with bind ?X _ = _ => destruct X as [[ex sx]| |] eqn:Hrx end; cbn [bind] in Hl; try discriminate.
+    match type of Hl with bind ?X _ = _ => destruct X as [[er sr]| |] eqn:Hrr end; cbn [bind] in Hl; try discriminate.
+    inv Hl. cbn [forallb] in H3c, Hn.
+    apply andb_true_iff in H3c. destruct H3c as [H3x H3r]. apply andb_true_iff in Hn. destruct Hn as [Hnx Hnr].
+    destruct x as [vx spx chx]. unfold is_row_of in Hx0. cbn [nval] in Hx0, Hrr.
+    destruct vx; try discriminate Hx0. destruct header; [|discriminate Hx0].
+    cbn [no_table is_table_v negb andb] in Hnx.
+    match type of Hrx with render _ _ ?cc _ _ = _ => pose proof (row_counts _ _ _ _ _ cc _ _ _ eq_refl eq_refl H3x Hnx Hrx) as C1 end. cbn [c_prev negb andb b2n] in C1.
+    pose proof (rows_counts _ _ _ _ _ _ _ _ H3r Hrs Hnr Hrr) as C2. cbn [is_hdr andb] in C2.
+    pose proof (counts6_app _ _ _ _ _ _ _ _ _ _ _ _ _ _ C1 C2) as [A [B0 [C [D [F G]]]]].
+    unfold exit_ in Hr. cbv beta iota zeta in Hr.
+    destruct rs as [|y rs]; cbn [bind] in Hr; inv Hr; cbn [List.length Nat.leb is_nil negb b2n Nat.add] in *;
+      unfold counts6; repeat split; cnt; rewrite ?count_open_app, ?count_close_app in *; lia.
+  Qed.
+End TS.
 
 (* ------------------------------------------------------------------ witnesses: each clause is needed *)
 Definition o_plain : opts :=
